@@ -84,4 +84,32 @@ __CPROVER_ensures(b == g_strcmp_watch ==> (g_strcmp_res == __CPROVER_return_valu
 __CPROVER_ensures(__CPROVER_return_value == 0 ==> a[0] == b[0]);
 #endif
 
+/* ------------------------------------------------------------------ igris_memmem (igris/string/memmem.c), for its callers
+ * The clause C19_MEMMEM_POST is what the unit memmem PROVES for the real code (it asserts this macro) and what replace_substrings /
+ * igris::replace get through --replace-call-with-contract.
+ *   result: NULL, or a position of l[0 .. l_len - s_len] at which s occurs (byte j: ghost index g_mm_j);
+ *   first occurrence: for the ghost position g_mm_watch (an absolute pointer into l): when it lies in front of the result (anywhere in
+ *   l[0 .. l_len - s_len] for NULL) the needle does NOT occur there: a differing byte is exhibited (index g_mm_d, ghost output);
+ *   s_len == 0 or l_len < s_len: NULL. */
+size_t g_mm_j;           /* in: ghost index into the needle */
+const char *g_mm_watch;  /* in: ghost position in the haystack */
+size_t g_mm_d;           /* out: index of a differing byte at the watched position */
+#define C19_MM_OFF(p) ((size_t)__CPROVER_POINTER_OFFSET(p))
+#define C19_MEMMEM_POST(r, l, ll, s, sl)                                                                    \
+    (((sl) == 0 || (ll) < (sl))                                                                             \
+         ? (r) == NULL                                                                                      \
+         : (((r) == NULL || (__CPROVER_same_object((r), (l)) && C19_MM_OFF(r) >= C19_MM_OFF(l) &&           \
+                             C19_MM_OFF(r) - C19_MM_OFF(l) <= (ll) - (sl) &&                                \
+                             C19_IMP(g_mm_j < (sl), ((const char *)(r))[g_mm_j] == ((const char *)(s))[g_mm_j]))) && \
+            C19_IMP(g_mm_watch != NULL && __CPROVER_same_object(g_mm_watch, (l)) && C19_MM_OFF(g_mm_watch) >= C19_MM_OFF(l) && \
+                        C19_MM_OFF(g_mm_watch) - C19_MM_OFF(l) <= (ll) - (sl) &&                            \
+                        ((r) == NULL || C19_MM_OFF(g_mm_watch) < C19_MM_OFF(r)),                            \
+                    g_mm_d < (sl) && g_mm_watch[g_mm_d] != ((const char *)(s))[g_mm_d])))
+#ifndef REPLAY
+void *igris_memmem(const void *l, size_t l_len, const void *s, size_t s_len)
+__CPROVER_requires((l_len == 0 || __CPROVER_r_ok(l, l_len)) && (s_len == 0 || __CPROVER_r_ok(s, s_len)))
+__CPROVER_assigns(g_mm_d)
+__CPROVER_ensures(C19_MEMMEM_POST(__CPROVER_return_value, l, l_len, s, s_len));
+#endif
+
 #endif
